@@ -12,24 +12,18 @@ COMMON_TRUSTED = [
     'rustc, std',
 ]
 
-PROPS = {
-    'C19': dict(
-        gens=['crc'],
-        lake=['IcyVerif.Props.C19'],
-        ns='IcyVerif.C19',
-        theorems=['crc16_table_entries', 'crc32_table_entries', 'update_crc16_is_bitwise',
-                  'update_crc32_is_bitwise', 'get_crc16_eq', 'incremental_crc16', 'get_crc32_eq',
-                  'incremental_crc32'],
-        harness='c19',
-        design='DESIGN.md §4 C19',
-        technique='Lean 4 proof (induction over byte strings + XOR-linearity of the shift register; '
-                  'tables checked entry-by-entry with decide +kernel) over a model whose tables and XOR-chain '
-                  'shape are regenerated from src/crc.rs; differential correspondence for the hand-written skeleton',
-        rule='cases: seeded byte strings of every length 0..=48, one-hot strings routing a byte through each sliced-table '
-             'row, longer strings, two-byte strings, update_crc16 rows (state x all 256 bytes hashed), update_crc32 '
-             'samples; distinct_nontrivial = distinct byte strings fed to the one-shot + incremental APIs',
-        modelled='get_crc16, update_crc16, get_crc32 (loop skeleton hand-modelled; tables, init value, block size, '
-                 'XOR-chain (row, index, shift) triples regenerated), update_slow, update_crc32',
-        not_modelled='get_crc16_buggy*, Rust slice bounds (buf[0xf] is in range because len>=16)',
-    ),
-}
+PROPS = {}
+
+
+def _load():
+    import importlib.util, os
+    d = os.path.join(os.path.dirname(os.path.abspath(__file__)), 'propsd')
+    for f in sorted(os.listdir(d)):
+        if f.endswith('.py') and not f.startswith('_'):
+            spec = importlib.util.spec_from_file_location('propsd_' + f[:-3], os.path.join(d, f))
+            m = importlib.util.module_from_spec(spec)
+            spec.loader.exec_module(m)
+            PROPS[f[:-3]] = m.PROP
+
+
+_load()
